@@ -1,2 +1,152 @@
-From Burrow Require Import Int64 Wire WireEnc.
-Example placeholder_C07 : True. Proof. exact I. Qed.
+(* C07 - Well-formed commit and group-metadata messages are decoded exactly.
+   Statements only; proofs are in WireProofs.v and WireRoundtripProofs.v.  Model: Wire.v (process_message); "well-formed"
+   is defined by the reference encoders of WireEnc.v (written from the Kafka schemas; anchored below on the literal byte
+   strings of core/internal/consumer/kafka_client_test.go; cross-checked on every run against an independent Go encoder
+   and an independent Python encoder by checks/c07.py, which also runs the real decoder and the model on the same
+   messages). *)
+From Coq Require Import ZArith List Bool Permutation.
+From Burrow Require Import Int64 Wire WireEnc WireProofs WireRoundtripProofs.
+Import ListNotations.
+Open Scope Z_scope.
+
+(* For every well-formed offset commit - key version 0 or 1, value version 0, 1 or 3 (leader epoch in 3, expire timestamp
+   in 1), any group, topic and metadata strings (null, empty, any bytes, up to 32767 long), any int32 partition and
+   leader epoch, any int64 offset and timestamps - exactly one consumer-offset update is produced, carrying the
+   message's group, topic, partition, offset and commit timestamp, ordered by the message's own position o in the
+   offsets log - when the reader's lists accept the group; nothing when they reject it. *)
+Theorem C07_offset_roundtrip :
+  forall (accept : list Z -> bool) kv vv g t p v o,
+    (kv = 0 \/ kv = 1) -> (vv = 0 \/ vv = 1 \/ vv = 3) ->
+    str_ok g -> str_ok t -> in_i32 p -> offset_value_ok v ->
+    exists al,
+      process_message accept (enc_offset_key kv g t p) (enc_offset_value vv v) o
+      = Done (if accept (str_val g)
+              then [SetConsumerOffset (str_val g) (str_val t) p (ov_offset v) (ov_commit_ts v) o]
+              else []) al.
+Proof. exact offset_roundtrip. Qed.
+Print Assumptions C07_offset_roundtrip.
+
+(* an offset tombstone (empty value) yields nothing *)
+Theorem C07_offset_tombstone :
+  forall (accept : list Z -> bool) kv g t p o,
+    (kv = 0 \/ kv = 1) -> str_ok g -> str_ok t -> in_i32 p ->
+    exists al, process_message accept (enc_offset_key kv g t p) [] o = Done [] al.
+Proof. exact offset_tombstone. Qed.
+Print Assumptions C07_offset_tombstone.
+
+(* For every well-formed group-metadata message of protocol type "consumer" - value version 0, 1, 2 or 3 (rebalance
+   timeout from 1, state timestamp from 2, group instance id in 3); any strings (null, empty, any bytes, up to 32767
+   long); any int32 / int64 fields; any number of members; each member with a null, an empty or a present assignment
+   (any non-negative version) of any number of topics with any number of int32 partitions each, topic names pairwise
+   distinct within one member (the decoder collects a member's topics in a Go map: a repeated name overwrites); null /
+   empty / present subscription and user data - for a group the reader's lists accept:
+   no member => exactly one owner clear for the group; otherwise exactly one owner update per member and assigned
+   topic-partition, with that member's host and client id, and nothing else.  (meta_ok: the side conditions just listed,
+   all of them what the wire format can carry.) *)
+Theorem C07_metadata_roundtrip :
+  forall (accept : list Z -> bool) g vv v o,
+    0 <= vv <= 3 -> str_ok g -> meta_ok v ->
+    str_val (mv_ptype v) = str_consumer -> accept (str_val g) = true ->
+    exists al,
+      process_message accept (enc_meta_key g) (enc_meta_value vv v) o
+      = Done (match mv_members v with
+              | [] => [ClearConsumerOwners (str_val g)]
+              | ms => flat_map (owner_requests (str_val g)) ms
+              end) al.
+Proof. exact metadata_roundtrip. Qed.
+Print Assumptions C07_metadata_roundtrip.
+
+(* The list above is in the order members, topics, partitions; the Go code ranges over each member's map in an
+   unspecified order.  Whatever that order, the same updates are sent (as a multiset). *)
+Theorem C07_owner_updates_any_map_order :
+  forall g (ms ms' : list member),
+    Forall2 (fun m m' => m_client_id m = m_client_id m' /\ m_client_host m = m_client_host m'
+                         /\ Permutation (m_assignment m) (m_assignment m')) ms ms' ->
+    Permutation (flat_map (member_requests g) ms) (flat_map (member_requests g) ms').
+Proof. exact owner_updates_any_map_order. Qed.
+Print Assumptions C07_owner_updates_any_map_order.
+
+(* any other protocol type - null and empty included - yields nothing *)
+Theorem C07_metadata_other_protocol :
+  forall (accept : list Z -> bool) g vv v o,
+    0 <= vv <= 3 -> str_ok g -> meta_ok v ->
+    str_val (mv_ptype v) <> str_consumer ->
+    exists al, process_message accept (enc_meta_key g) (enc_meta_value vv v) o = Done [] al.
+Proof. exact metadata_other_protocol. Qed.
+Print Assumptions C07_metadata_other_protocol.
+
+(* a metadata tombstone (empty value) deletes the group - for a group the reader's lists accept *)
+Theorem C07_metadata_tombstone :
+  forall (accept : list Z -> bool) g o,
+    str_ok g ->
+    exists al, process_message accept (enc_meta_key g) [] o
+               = Done (if accept (str_val g) then [DeleteGroup (str_val g)] else []) al.
+Proof. exact metadata_tombstone. Qed.
+Print Assumptions C07_metadata_tombstone.
+
+(* Whatever the bytes: every partition in a request is a Go int32, every offset and timestamp a Go int64 (what the
+   storage layer's arithmetic assumes, C01), and the Order of an offset update is the message's own offset. *)
+Theorem C07_in_range :
+  forall (accept : list Z -> bool) key value o rs al,
+    process_message accept key value o = Done rs al -> Forall (req_in_range o) rs.
+Proof. exact in_range. Qed.
+Print Assumptions C07_in_range.
+
+(* ---- the specification of well-formed agrees with the unit tests' literals (WireEnc.v) ---- *)
+
+Example C07_anchor_offset_key_v1 :
+  enc_offset_key 1 (Some b_testgroup) (Some b_testtopic) 11 = lit_okey1.
+Proof. vm_compute. reflexivity. Qed.
+Example C07_anchor_offset_value_v0 : exists md, enc_offset_value 0 (mkOV 8372 0 md 1637 0) = lit_oval0.
+Proof. eexists. exact anchor_offset_value_v0. Qed.
+Example C07_anchor_offset_value_v3 : exists md, enc_offset_value 3 (mkOV 8372 0 md 1637 0) = lit_oval3.
+Proof. eexists. exact anchor_offset_value_v3. Qed.
+Example C07_anchor_meta_key : enc_meta_key (Some b_testgroup) = lit_mkey.
+Proof. vm_compute. reflexivity. Qed.
+Example C07_anchor_meta_values :
+  (exists v, enc_meta_value 1 v = lit_mval1) /\ (exists v, enc_meta_value 2 v = lit_mval2)
+  /\ (exists v, enc_meta_value 3 v = lit_mval3).
+Proof.
+  split; [|split]; eexists;
+    [exact anchor_meta_value_v1 | exact anchor_meta_value_v2 | exact anchor_meta_value_v3].
+Qed.
+
+(* ---- non-vacuity ---- *)
+
+(* a version 3 message with two members: the first owns t1/{0,1} and t2/{5}, the second (null instance id, null
+   subscription, user data present) owns t1/{2}; it meets meta_ok, and decodes to the four owner updates *)
+Definition C07_ex_value : meta_value :=
+  mkMV b_consumer 7 None (Some []) 1567112890219
+    [ mkWM b_cid1 b_g b_cid1 b_host1 (-1) 30000 (Some [0; 1; 0; 0])
+        (Asg (mkAsg 1 [(b_t1, [0; 1]); (b_t2, [5])] (Some [])));
+      mkWM b_cid2 None b_cid2 b_host2 0 2147483647 None
+        (Asg (mkAsg 0 [(b_t1, [2])] (Some [1; 2; 3]))) ].
+
+Example C07_ex_meta_ok : meta_ok C07_ex_value /\ str_val (mv_ptype C07_ex_value) = str_consumer.
+Proof.
+  split; [|reflexivity].
+  unfold meta_ok, C07_ex_value, member_ok, asg_field_ok, asg_ok, topic_ok, str_ok, bytes_ok32, in_i32, in_i64,
+    two31, two63.
+  cbn -[Z.lt Z.le Z.opp].
+  repeat (first [ split | constructor ]);
+    try (vm_compute in *; first [ reflexivity | discriminate | contradiction
+                                | match goal with H : _ \/ _ |- _ => destruct H; first [discriminate | contradiction] end ]).
+  vm_compute. intros [H|[]]. discriminate H.
+Qed.
+
+Example C07_ex_metadata_decodes :
+  process_message (fun _ => true) (enc_meta_key b_g) (enc_meta_value 3 C07_ex_value) 0
+  = Done (flat_map (owner_requests (str_val b_g)) (mv_members C07_ex_value))
+         [1; 8; 0; 2; 1; 2; 9; 96; 2; 8; 2; 4; 2; 2; 9; 48; 2; 4].
+Proof. vm_compute. reflexivity. Qed.
+
+Example C07_ex_four_updates :
+  length (flat_map (owner_requests (str_val b_g)) (mv_members C07_ex_value)) = 4%nat.
+Proof. vm_compute. reflexivity. Qed.
+
+(* extreme values in an offset commit *)
+Example C07_ex_offset_extremes :
+  process_message (fun _ => true) (enc_offset_key 1 (Some [103]) None (-1))
+                  (enc_offset_value 3 (mkOV (-9223372036854775808) (-1) None 9223372036854775807 0)) 42
+  = Done [SetConsumerOffset [103] [] (-1) (-9223372036854775808) 9223372036854775807 42] [1].
+Proof. exact offset_roundtrip_example. Qed.
